@@ -4,7 +4,7 @@ import itertools
 import json
 import os
 
-from vlib import common
+from vlib import common, eqgen
 from vlib.common import Diff, VERIF, LEAN
 
 AREA = "eventqueue"
@@ -13,11 +13,23 @@ PROPS_FILE = os.path.join(LEAN, "MorfuseModel", "Props", "C08.lean")
 NL, NT = 3, 4
 DELAYS = [-2, -1, 0, 0, 0, 1, 1, 2, 3, 5]
 TICKS = [0, 1, 1, 2, 3]
+AMOUNTS = [0, 0, 1, 1, 2, 3, 5, 9]
+
+# the histories of the Lean theorems `C08_original_postpone_loses_event`, `C08_original_postpone_ub`,
+# `C08_original_load_ub` (Props/C08.lean, `origOps` + one operation), continued by a pass so that the
+# loss is seen as a missing delivery; replayed on the real code first on every run
+WITNESSES = [
+    ("witness:postpone-root-lost", ["reset 0", "newl 1", "post 1 1 5 0", "post 1 2 9 0", "postpone 1 1 3", "tick 20", "process"]),
+    ("witness:postpone-past-tail", ["reset 0", "newl 1", "post 1 1 5 0", "post 1 2 9 0", "postpone 1 2 0", "tick 20", "process"]),
+    ("witness:archive-load", ["reset 0", "newl 1", "post 1 1 5 0", "post 1 2 9 0", "saveload", "tick 20", "process"]),
+]
 
 TRUSTED = [
     "Lean 4.33.0 kernel (lake build; leanchecker in the thorough tier)",
     "axioms allowed: propext, Classical.choice, Quot.sound (audited by #print axioms on every run)",
-    "hand-written model lean/MorfuseModel/EventQueue/Model.lean of EventQueue.cpp / EventQueueNode.cpp / LinkedList<T*> / Listener post+cancel+destructor / EventContext::ProcessEvents, tied by the differential correspondence run (harness/eventqueue.cpp vs lean driver)",
+    "hand-written model lean/MorfuseModel/EventQueue/Model.lean of EventQueue.cpp (all of it) / EventQueueNode.cpp / LinkedList<T*> / Listener post+cancel+postpone+per-listener pass+destructor / EventContext::ProcessEvents, tied by the differential correspondence run (harness/eventqueue.cpp vs lean driver)",
+    "tools/vlib/eqgen.py: recognises which of the two re-linking sequences PostponeEvent / PostponeAllEvents use and whether Archive(loading) assigns node->event, by comparing the comment- and whitespace-free function text with the transcribed text",
+    "Archive round trip: the model's record = (sequence number, listener, type, due, flags); that Event::Archive / ArchiveSafePointer / ArchiveInt64 / ArchiveUInt32 carry exactly these through the byte stream is C10/C11's subject and is only observed here through the harness (same context, same listener objects)",
     "the host listener class, handler table, budget and injected clock of harness/eventqueue.cpp are mirrored by the model's Host record (they are test scaffolding, not engine code)",
     "g++ 12 / ASan / UBSan semantics for memory errors in the real queue (a use of a freed pool slot is only visible when it changes an observation: BlockAlloc recycles without poisoning)",
     "Std.HashMap.getD_insert (core library lemma) behind Mem.get_set / EvMem.get_set",
@@ -26,7 +38,8 @@ ASSUME = [
     "operations are legal host programs: no call on a destroyed listener (answered bad-op on both sides); inside a response, actions on a destroyed listener are skipped by the host",
     "the clock is monotone and moves only through `tick` (top level or inside a response); times stay far from the int64 range",
     "re-entrant posts are bounded by the host's budget, so every pass is finite (a response that re-posts itself with delay <= 0 forever is a non-terminating host program, not a queue defect)",
-    "responses do not throw; PostponeEvent / PostponeAllEvents / ProcessPendingEvents(Listener*) / Archive are outside the property's operation set and are not modelled",
+    "responses do not throw; postponement amounts are non-negative (PostponeEvent searches forward only: a negative amount is not a postponement and would leave the list unsorted)",
+    "ProcessPendingEvents(Listener*), ClearEventList and Archive are called from top level only (not from inside a response); Archive saves and loads within one context whose listeners are archived first",
     "cancelled Event objects are leaked by the engine (known, stated in DESIGN.md section 8: no property speaks about it)",
 ]
 
@@ -46,8 +59,10 @@ class Oracle:
         self.handlers = {}
         self.cancelled = set()
         self.delivered = set()
+        self.ord = 1            # enqueue stamp: posting order, renewed by a postponement
 
     def act(self, a, re):
+        """returns the boolean result of the engine call where there is one"""
         k = a[0]
         if k == "tick":
             self.now += a[1]
@@ -55,6 +70,21 @@ class Oracle:
         l = a[1]
         if l not in self.alive:
             return
+        if k in ("postpone", "postponeall"):
+            if k == "postpone":
+                hit = [e for e in self.pending if e["l"] == l and e["t"] == a[2]]
+                d = a[3]
+            else:
+                hit = [e for e in self.pending if e["l"] == l]
+                d = a[2]
+            if not hit:
+                return False
+            e = hit[0]              # the first one in queue order
+            e["due"] += d
+            e["ord"] = self.ord
+            self.ord += 1
+            self.pending.sort(key=lambda e: (e["due"], e["ord"]))
+            return True
         if k == "post":
             _, l, t, d, f = a
             if re:
@@ -65,8 +95,9 @@ class Oracle:
             self.seq += 1
             if t == 0 or not (1 <= t <= 3):
                 return
-            self.pending.append({"seq": seq, "l": l, "t": t, "due": self.now + d, "f": f})
-            self.pending.sort(key=lambda e: (e["due"], e["seq"]))
+            self.pending.append({"seq": seq, "l": l, "t": t, "due": self.now + d, "f": f, "ord": self.ord})
+            self.ord += 1
+            self.pending.sort(key=lambda e: (e["due"], e["ord"]))
         elif k in ("ctype", "call", "cflag", "destroy"):
             if k == "ctype":
                 m = lambda e: e["l"] == l and e["t"] == a[2]
@@ -89,6 +120,26 @@ class Oracle:
             for a in self.handlers.get((e["l"], e["t"]), []):
                 self.act(a, True)
         return out
+
+    def process_listener(self, l):
+        """one listener's due events, in queue order, each time starting over from the front"""
+        t = self.now
+        out = []
+        while True:
+            hit = [e for e in self.pending if e["due"] <= t and e["l"] == l]
+            if not hit:
+                break
+            e = hit[0]
+            self.pending.remove(e)
+            self.delivered.add(e["seq"])
+            out.append("%d:%d:%d@%d" % (e["l"], e["t"], e["seq"], self.now))
+            for a in self.handlers.get((e["l"], e["t"]), []):
+                self.act(a, True)
+        return out
+
+    def clear(self):
+        self.cancelled |= {e["seq"] for e in self.pending}
+        self.pending = []
 
     def queue(self):
         return "n=%d q=%s" % (len(self.pending), ",".join("%d@%d" % (e["seq"], e["due"]) for e in self.pending))
@@ -113,6 +164,10 @@ def parse_action(tok):
         return ("destroy", n[0])
     if p[0] == "t" and len(n) == 1 and n[0] >= 0:
         return ("tick", n[0])
+    if p[0] == "pp" and len(n) == 3 and okl(n[0]) and 0 <= n[1] <= NT and n[2] >= 0:
+        return ("postpone", n[0], n[1], n[2])
+    if p[0] == "pa" and len(n) == 2 and okl(n[0]) and n[1] >= 0:
+        return ("postponeall", n[0], n[1])
     return None
 
 
@@ -126,7 +181,7 @@ def oracle_lines(lines):
         ctxinfo = {"op": t[0] if t else ""}
         res = "bad-op"
         try:
-            if t and t[0] == "reset" and len(t) == 2 and int(t[1]) >= 0:
+            if t and t[0] == "reset" and (len(t) == 2 or (len(t) == 3 and t[2] == "src")) and int(t[1]) >= 0:
                 o = Oracle(int(t[1]))
                 res = "ok"
             elif o is None or not t:
@@ -153,6 +208,27 @@ def oracle_lines(lines):
                     ctxinfo["delivered"] = set(o.delivered)
                     d = o.process()
                     res = "ok d=%s %s" % (",".join(d), o.queue())
+                elif op == "processl" and len(n) == 1 and n[0] in o.alive:
+                    ctxinfo["before"] = [dict(e) for e in o.pending]
+                    ctxinfo["t"] = o.now
+                    ctxinfo["cancelled"] = set(o.cancelled)
+                    ctxinfo["delivered"] = set(o.delivered)
+                    ctxinfo["listener"] = n[0]
+                    d = o.process_listener(n[0])
+                    res = "ok r=%d d=%s %s" % (1 if d else 0, ",".join(d), o.queue())
+                elif op == "clear" and not n:
+                    o.clear()
+                    res = "ok " + o.queue()
+                elif op == "saveload" and not n:
+                    res = "ok " + o.queue()
+                elif op == "postpone" and len(n) == 3 and n[0] in o.alive and 0 <= n[1] <= NT and n[2] >= 0:
+                    ctxinfo["before"] = [dict(e) for e in o.pending]
+                    r = o.act(("postpone", n[0], n[1], n[2]), False)
+                    res = "ok r=%d %s" % (1 if r else 0, o.queue())
+                elif op == "postponeall" and len(n) == 2 and n[0] in o.alive and n[1] >= 0:
+                    ctxinfo["before"] = [dict(e) for e in o.pending]
+                    r = o.act(("postponeall", n[0], n[1]), False)
+                    res = "ok r=%d %s" % (1 if r else 0, o.queue())
                 else:
                     a = None
                     if op == "post" and len(n) == 4 and okl(n[0]) and 0 <= n[1] <= NT and 0 <= n[3] <= 7:
@@ -197,7 +273,7 @@ def parse_obs(s):
                         x = x.split("!")[0]
                     seq, due = x.split("@")
                     q.append((int(seq), int(due)))
-            elif p.startswith("n="):
+            elif p.startswith("n=") or p in ("r=0", "r=1"):
                 pass
             else:
                 flags.append(p)
@@ -218,7 +294,22 @@ def explain(line, got, want, c):
     if gf:
         return "structure:" + "+".join(sorted(set(gf)))
     op = c.get("op")
-    if op == "process":
+    if op in ("postpone", "postponeall", "saveload", "clear") and "r=" in got and "r=" in want and \
+            got.split()[1] != want.split()[1]:
+        return "result"
+    if op in ("postpone", "postponeall"):
+        gs, ws = [x for x, _ in gq], [x for x, _ in wq]
+        if set(gs) != set(ws):
+            return "postponed-event-lost" if set(gs) < set(ws) else "queue-content"
+        if gs != ws:
+            return "queue-order"
+        if gq != wq:
+            return "due-time"
+    if op == "saveload" and gq != wq:
+        return "archive-round-trip"
+    if op == "processl" and [x[0] for x in gd if x[0] != c.get("listener")]:
+        return "delivered-other-listener"
+    if op in ("process", "processl"):
         before = {e["seq"]: e for e in c.get("before", [])}
         t = c.get("t", 0)
         gseqs = [x[2] for x in gd]
@@ -244,8 +335,8 @@ def explain(line, got, want, c):
     if [s for s, _ in gq] != [s for s, _ in wq]:
         if set(s for s, _ in gq) != set(s for s, _ in wq):
             return {"ctype": "cancel-inexact", "call": "cancel-inexact", "cflag": "cancel-inexact",
-                    "destroy": "destroy-cancel-inexact", "post": "post-lost-or-phantom",
-                    "process": "queue-after-pass"}.get(op, "queue-content")
+                    "destroy": "destroy-cancel-inexact", "post": "post-lost-or-phantom", "clear": "clear-inexact",
+                    "process": "queue-after-pass", "processl": "queue-after-pass"}.get(op, "queue-content")
         return "queue-order"
     if gq != wq:
         return "due-time"
@@ -315,8 +406,12 @@ def rand_action(rng):
         return "ca:%d" % l
     if k < 0.76:
         return "cf:%d:%d" % (l, rng.choice([0, 1, 2, 3, 4, 7]))
-    if k < 0.86:
+    if k < 0.84:
         return "d:%d" % l
+    if k < 0.90:
+        return "pp:%d:%d:%d" % (l, rng.randint(1, 3), rng.choice(AMOUNTS))
+    if k < 0.93:
+        return "pa:%d:%d" % (l, rng.choice(AMOUNTS))
     return "t:%d" % rng.choice(TICKS)
 
 
@@ -341,6 +436,9 @@ def gen_case(rng, n):
                 "ctype %d 0" % rng.randint(1, NL), "post 1 9 0 0", "post 1 1 0 8", "cflag 1 9", "tick -1", "newl 0",
                 "newl %d" % (rng.choice(sorted(alive)) if alive else 7), "destroy %d" % rng.choice([0, 4]),
                 "handler 1 4 p:1:1:0:0", "handler 1 1 x:1", "handler 1 1 p:1:1:0", "process 1", "pend 1 0", "frob", "post 1 1 a 0",
+                "postpone 1 1 -1", "postpone 1 9 1", "postponeall 0 1", "postponeall 1", "processl 0", "processl 4", "clear 1", "saveload x",
+                "handler 1 1 pp:1:1:-2", "handler 1 1 pa:4:1",
+                "processl %d" % rng.choice([l for l in range(1, NL + 1) if l not in alive] or [0]),
                 "call %d" % rng.choice([l for l in range(1, NL + 1) if l not in alive] or [0])]))
             continue
         if not alive or r < 0.07:
@@ -351,9 +449,14 @@ def gen_case(rng, n):
                 lines.append("newl %d" % l)
             continue
         l = rng.choice(sorted(alive))
-        if r < 0.50:
+        if r < 0.42:
             t = rng.choice([0, 4]) if rng.random() < 0.06 else rng.randint(1, 3)
             lines.append("post %d %d %d %d" % (l, t, rng.choice(DELAYS), rng.choice([0, 0, 1, 2, 3, 4, 7])))
+        elif r < 0.47:
+            t = rng.choice([0, 4]) if rng.random() < 0.05 else rng.randint(1, 3)
+            lines.append("postpone %d %d %d" % (l, t, rng.choice(AMOUNTS)))
+        elif r < 0.50:
+            lines.append("postponeall %d %d" % (l, rng.choice(AMOUNTS)))
         elif r < 0.56:
             lines.append("ctype %d %d" % (l, rng.randint(1, 3)))
         elif r < 0.60:
@@ -365,8 +468,14 @@ def gen_case(rng, n):
             lines.append("destroy %d" % l)
         elif r < 0.80:
             lines.append("tick %d" % rng.choice(TICKS))
-        elif r < 0.92:
+        elif r < 0.87:
             lines.append("process")
+        elif r < 0.91:
+            lines.append("processl %d" % l)
+        elif r < 0.925:
+            lines.append("saveload")
+        elif r < 0.935:
+            lines.append("clear")
         elif r < 0.96:
             lines.append("pend %d %d" % (l, rng.randint(1, 3)))
         else:
@@ -389,6 +498,15 @@ FAMILIES = {
     # ties only: everything lands on two due times; every cancel flavour
     "ties": (["reset 1", "newl 1", "newl 2", "handler 1 2 p:2:1:0:1"],
              ["post 1 1 1 1", "post 2 1 1 2", "post 1 2 0 0", "process", "tick 1", "cflag 2 2", "ctype 1 1"]),
+    # postponements: of the root, past the tail, onto a tie, by 0, of the only event, of all; archive; clear
+    "postpone": (["reset 0", "newl 1", "newl 2"],
+                 ["post 1 1 1 0", "post 2 1 2 0", "post 1 2 2 1", "postpone 1 1 1", "postpone 1 2 0", "postpone 2 1 5",
+                  "postponeall 1 1", "postponeall 2 0", "tick 1", "process", "saveload", "clear"]),
+    # per-listener passes with re-entrant posts to both listeners, a postponement and a self-destroy from a response
+    "perlistener": (["reset 2", "newl 1", "newl 2", "handler 1 1 p:1:2:0:0 p:2:1:0:0", "handler 2 1 pp:1:2:2 ca:1",
+                     "handler 1 2 d:1"],
+                    ["post 1 1 0 0", "post 2 1 0 1", "post 1 2 1 0", "post 2 2 -1 0", "tick 1", "processl 1", "processl 2",
+                     "process", "postponeall 1 1"]),
 }
 
 
@@ -404,6 +522,9 @@ def seeded_family(rng):
             alpha.append(s)
     alpha.append(rng.choice(["ctype %d %d" % (rng.randint(1, 3), rng.randint(1, 2)), "call %d" % rng.randint(1, 3)]))
     alpha.append(rng.choice(["cflag %d %d" % (rng.randint(1, 3), rng.choice([1, 2, 3])), "destroy %d" % rng.randint(1, 3)]))
+    alpha.append(rng.choice(["postpone %d %d %d" % (rng.randint(1, 3), rng.randint(1, 2), rng.choice([0, 1, 2, 4])),
+                             "postponeall %d %d" % (rng.randint(1, 3), rng.choice([0, 1, 3]))]))
+    alpha.append(rng.choice(["processl %d" % rng.randint(1, 3), "saveload", "clear"]))
     return pre, alpha
 
 
@@ -451,7 +572,8 @@ class Diff08(Diff):
         ls = sorted(alive)[:2]
         alpha = ["process", "tick 1", "tick 3"]
         for l in ls:
-            alpha += ["post %d 1 %d 0" % (l, d) for d in (-3, -1, 0, 1, 2, 4, 7)] + ["call %d" % l]
+            alpha += ["post %d 1 %d 0" % (l, d) for d in (-3, -1, 0, 1, 2, 4, 7)] + ["call %d" % l, "postponeall %d 1" % l,
+                                                                                      "processl %d" % l]
         for n in (1, 2, 3):
             for combo in itertools.product(alpha, repeat=n):
                 yield pre + list(combo) + ["tick 9", "process"]
@@ -501,15 +623,53 @@ def run_stream(d, name, gen, chunk=4000):
     return bad, i
 
 
+def source_fidelity(ctx, exe, cases):
+    """The model in the configuration read from the source text (`reset B src`) against the real code: equal line
+    by line up to the first `ub` of the model (from there on the real code may do anything, usually it crashes),
+    and no crash where the model has no `ub`."""
+    bad, ubs, crashes = [], 0, 0
+    for name, c in cases:
+        src = [c[0] + " src"] + c[1:]
+        impl, crash, info = common.run_lines(exe, [], c, timeout=20)
+        impl = strip_struct(impl)      # the model does not print the harness's LINKS-BAD / COUNT-MISMATCH flags
+        model = common.run_model(AREA, src)
+        cut = model.index("ub") if "ub" in model else None
+        if cut is None:
+            if crash is not None or impl != model:
+                bad.append((name, c, "no ub in the model but %s" % (crash or "outputs differ")))
+        else:
+            ubs += 1
+            crashes += 1 if crash is not None else 0
+            if impl[:cut] != model[:cut]:
+                bad.append((name, c, "outputs differ before the model's ub at line %d" % cut))
+    ctx.stats["source_fidelity"] = {"cases": len(cases), "model_ub": ubs, "of_which_real_code_crashed": crashes,
+                                    "mismatch": len(bad)}
+    return bad
+
+
 def check(ctx):
     prop = Prop()
+    # which configuration of the model is the source text?  (regenerates Gen/EventQueueCfg.lean)
+    cfg, problems = eqgen.regenerate(ctx)
+    repaired = cfg["postponeRelinks"] and cfg["loadSetsEvent"] and not problems
     common.proof_side(ctx, PROPS_MODULE, PROPS_FILE)
     if ctx.tier == "thorough":
         common.leanchecker(ctx, PROPS_MODULE)
     exe = build(ctx)
-    d = Diff08(ctx, prop, exe, AREA)
     quick = ctx.tier == "quick"
-    bad = d.run_batch(corpus_cases())
+    # the histories on which Lean proves that the original configuration breaks the property, on the real code
+    dw = Diff08(ctx, prop, exe, AREA)
+    dw.max_reports = len(WITNESSES)
+    wbad = 0
+    for w in WITNESSES:
+        wbad += dw.run_batch([w])
+    ctx.oblige("source text is the repaired configuration of the model (the theorems of Props/C08.lean are about it): "
+               "Postpone… re-links by Add/AddFirst/Insert, Archive(loading) assigns node->event", repaired,
+               "read from the source: %s%s; %d of the %d witness histories of the C08_original_* theorems fail on the real code"
+               % (cfg, (" (" + "; ".join(problems) + ")") if problems else "", wbad, len(WITNESSES)),
+               reported=bool(ctx.violations))
+    d = Diff08(ctx, prop, exe, AREA)
+    bad = wbad + d.run_batch(corpus_cases())
     # the oracle used for classification must itself agree with the proved model on what is generated:
     # checked on every random case below (a disagreement is a machinery error, not a verdict)
     rng = ctx.rng("random")
@@ -520,10 +680,18 @@ def check(ctx):
         if oracle_lines(c)[0] != common.run_model(AREA, c):
             oracle_bad += 1
     ctx.oblige("python trace monitor == proved model on sampled histories", oracle_bad == 0, "%d differ" % oracle_bad)
+    if not repaired and not problems:
+        # the model of the code as it is (original configuration) against the code as it is
+        frng = ctx.rng("fidelity")
+        fcases = list(WITNESSES) + [("fidelity:%d" % i, gen_case(frng, frng.choice([6, 12, 30]))) for i in range(60 if quick else 400)]
+        fb = source_fidelity(ctx, exe, fcases)
+        ctx.oblige("model in the source configuration (reset B src) == real code up to the model's first ub, on %d histories" % len(fcases),
+                   not fb, "; ".join("%s: %s" % (n, w) for n, _, w in fb[:3]))
     for i in range(0, len(rcases), 250):
         bad += d.run_batch(rcases[i:i + 250])
     exh = {}
-    plan = [("order", 4 if quick else 5), ("reentrant", 5 if quick else 6), ("ties", 5 if quick else 6)]
+    plan = [("order", 4 if quick else 5), ("reentrant", 5 if quick else 6), ("ties", 5 if quick else 6),
+            ("postpone", 4 if quick else 5), ("perlistener", 4 if quick else 5)]
     for name, depth in plan:
         pre, alpha = FAMILIES[name]
         b, n = run_stream(d, "exh-%s" % name, exhaustive(pre, alpha, depth))
@@ -532,12 +700,12 @@ def check(ctx):
     frng = ctx.rng("family")
     for k in range(1 if quick else 3):
         pre, alpha = seeded_family(frng)
-        depth = 5 if quick else 6
+        depth = 4 if quick else 5
         b, n = run_stream(d, "exh-seeded%d" % k, exhaustive(pre, alpha, depth))
         bad += b
         exh["seeded%d" % k] = {"depth": depth, "alphabet": len(alpha), "histories": n, "preamble": pre, "symbols": alpha}
     ctx.stats["exhaustive"] = exh
-    ctx.oblige("correspondence harness/eventqueue.cpp == EventQueue model on %d histories" % d.cases, bad == 0,
+    ctx.oblige("correspondence harness/eventqueue.cpp == EventQueue model (repaired configuration) on %d histories" % (d.cases + dw.cases), bad == 0,
                "%d differing cases" % bad, reported=True)
     ctx.samples = [gen_case(ctx.rng("sample"), 10)]
     cov = {
